@@ -68,6 +68,28 @@ def long_recipes(rng, n):
     return out
 
 
+def flag_only(rng, quick):
+    """Recipes made of class flags alone: every allow x exclude pair without requirements (the count is |alphabet|^L: overlapping
+    classes - Ambiguous shares characters with Uppers, Lowers and Digits - must not be counted twice), and allow x require x exclude
+    triples (quick: seeded, thorough: all 2^15)."""
+    out = []
+    def c(a, r, x, L):
+        ch = dict(len=L, allow=a, require=r, exclude=x, allowChars=[], requireSets=[], excludeChars=[])
+        return dict(kind="char", char=ch, maxTrials=0, failRateOne=0, mode="paths", paths=0, maxLeaves=0, tag="flags-only")
+    for a in range(32):
+        for x in range(32):
+            out.append(c(a, 0, x, rng.choice([1, 2, 8, 20])))
+    if quick:
+        for _ in range(300):
+            out.append(c(rng.randrange(32), rng.randrange(32), rng.choice([0, 16, rng.randrange(32)]), rng.choice([1, 3, 8, 20])))
+    else:
+        for a in range(32):
+            for r in range(1, 32):
+                for x in range(32):
+                    out.append(c(a, r, x, rng.choice([1, 3, 8, 20])))
+    return out
+
+
 def run(ctx):
     quick = ctx.tier == "quick"
     rng = random.Random(ctx.seed)
@@ -91,6 +113,7 @@ def run(ctx):
     scen += overlap_recipes(rng, 300 if quick else 6000, 64)
     scen += long_recipes(rng, 16 if quick else 200)
     scen += many_sets()
+    scen += flag_only(rng, quick)
     files, cells, leaves = charfam.run_scenarios(ctx, scen, "c07", shards=vlib.NCPU)
     sf, sc_, sl = charfam.run_sequences(ctx, charfam.collision_sequences(), "c07")
     files, cells, leaves = files + sf, cells + sc_, leaves + sl
